@@ -33,6 +33,13 @@ KINDS = ['pass', 'fail', 'error', 'skip_dec', 'skip_cls', 'skip_setup',
          'sub_skip', 'redir_sub_fail', 'swap_fail']
 
 
+def _o_filter(case):
+    return case[0] <= 2 and len(case) == 8 and case[4] == 'both' and case[7] in ('', 'x')
+
+
+ENV_PASSES = [{'name': 'python -O', 'argv': ['-O'], 'env': {}, 'filter': _o_filter}]
+
+
 def _graphs(nmax):
     for n in range(1, nmax + 1):
         for g in worlds.dags(n):
